@@ -411,7 +411,9 @@ ALL = None   # every function of the module
 # property -> {module: set of function names (None = all)}: the functions whose behaviour the property is about
 ANCHORS: dict[str, dict[str, set | None]] = {
     "C01": {"hugr.build.dfg": ALL, "hugr.build.cfg": ALL, "hugr.build.cond_loop": ALL, "hugr.build.function": ALL, "hugr.build.tracked_dfg": ALL,
-            "hugr.hugr.base": {"_constrain_offset", "_order_port_offset", "add_order_link"}},
+            "hugr.hugr.base": {"_constrain_offset", "_order_port_offset", "add_order_link"},
+            # (constants the builders load: a sum / tuple value built from a one-shot iterable must still inhabit its type)
+            "hugr.val": {"__init__"}, "hugr.tys": {"__init__"}},
     "C02": {"hugr.hugr.base": SER, "hugr._serialization.serial_hugr": ALL, "hugr._serialization.ops": ALL, "hugr._serialization.tys": ALL,
             "hugr.ops": {"_to_serial"}, "hugr.tys": {"_to_serial", "_to_serial_root", "_to_opaque"}, "hugr.val": {"_to_serial", "_to_serial_root"},
             "hugr.utils": {"ser_it", "deser_it"}},
@@ -427,7 +429,9 @@ ANCHORS: dict[str, dict[str, set | None]] = {
     "C07": {"hugr.tys": {"type_bound", "_to_opaque", "__init__"}, "hugr._serialization.tys": {"join"}, "hugr._serialization.extension": {"deserialize"}, "hugr.ext": {"bound"}, "hugr.std.collections.array": ALL, "hugr.std.collections.list": ALL,
             "hugr.std.collections.static_array": ALL},
     "C08": {"hugr.hugr.base": {"insert_hugr"}, "hugr.build.dfg": {"_insert_nested_impl", "insert_nested", "insert_cfg", "insert_conditional", "insert_tail_loop"}},
-    "C09": {"hugr.envelope": ALL, "hugr.package": {"from_bytes", "from_str", "to_bytes", "to_str", "_to_serial"}},
+    "C09": {"hugr.envelope": ALL, "hugr.package": {"from_bytes", "from_str", "to_bytes", "to_str", "_to_serial"},
+            # (the codec helpers every decoded package goes through)
+            "hugr.utils": {"ser_it", "deser_it"}, "hugr._serialization.extension": {"deserialize"}},
     "C10": {"hugr.ext": ALL, "hugr._serialization.extension": ALL, "hugr.std": ALL},
     "C11": {"hugr.tys": {"resolve", "_to_opaque", "to_model"}, "hugr.ops": {"resolve", "to_custom_op"}, "hugr.ext": {"get_op", "get_type", "get_extension"},
             "hugr.hugr.base": {"resolve_extensions"}},
